@@ -1,3 +1,4 @@
+\* a handful of repositories (used while developing the specification)
 SPECIFICATION Spec
 CONSTANTS
   Seeds <- SmokeSeeds
